@@ -35,6 +35,7 @@ pub fn run(cfg: &Config) -> i32 {
 		add(&mut total, pf::fam_block_boundaries(cfg, flags));
 		add(&mut total, pf::fam_long_strings(cfg, flags, if cfg.san { 300 } else { 2300 }));
 		add(&mut total, pf::fam_long_lexemes(cfg, flags, if cfg.san { 200 } else { 1200 }));
+		add(&mut total, pf::fam_escape_runs(cfg, flags, if cfg.san { 40 } else { 72 }));
 	}
 	let extra = json!({
 		"escape_tables_swept_completely": exhaustive_tables,
